@@ -36,6 +36,7 @@ func allProps() []*PropSpec {
 		propC06(),
 		propC18(),
 		propC15(),
+		propC14(),
 	}
 }
 
@@ -174,6 +175,24 @@ func propC15() *PropSpec {
 			js = append(js, jobsN(".", "VerifDispatchHistory", pick([]int{3}, []int{3, 4}), "all histories of up to n registrations x 3-byte type x 4 parameter suffixes")...)
 			js = append(js, jobsN(".", "VerifDispatchParams", pick(rng(3, 5), rng(3, 6)), "up to one registration x media type strings of n bytes")...)
 			js = append(js, Job{Pkg: ".", Fn: "VerifDispatchTwin", N: 0, ExpectFail: true, Desc: "vacuity twin"})
+			return js
+		},
+	}
+}
+
+func propC14() *PropSpec {
+	return &PropSpec{
+		ID:   "C14",
+		Rule: "one case = one feasible path of a Minify method on a concrete document with the fault position k, the fault mode (writer from its k-th call / reader after k bytes / both), the chunking of the reader and the kind of reader error (plain / wrapping io.EOF) symbolic; non-trivial = completes with a distinct symbolic output",
+		Assumptions: []string{"documents are the concrete ones listed in harness/<pkg>/io.go (the input does not influence the claim beyond the number of writes)", "0 <= k <= 64"},
+		Outside:     []string{"(*M).Reader / (*M).Writer / ResponseWriter wrappers: they need goroutines and io.Pipe, which the engine does not model (not claimed)", "cmdMinifier (spawns processes)", "documents other than the listed ones"},
+		Stubs:       []string{"errors.Is: loop over Unwrap without the reflective comparability check", "sort.Slice: reflection-free stable insertion sort", "internal/bytealg leaves: plain Go loops"},
+		Jobs: func(tier string) []Job {
+			var js []Job
+			for _, p := range [][2]string{{"json", "VerifJSONIOFault"}, {"xml", "VerifXMLIOFault"}, {"css", "VerifCSSIOFault"}, {"svg", "VerifSVGIOFault"}, {"html", "VerifHTMLIOFault"}, {"js", "VerifJSIOFault"}} {
+				js = append(js, Job{Pkg: p[0], Fn: p[1], N: 0, Desc: "symbolic fault position/mode on concrete documents"})
+			}
+			js = append(js, Job{Pkg: "json", Fn: "VerifJSONIOTwin", N: 0, ExpectFail: true, Desc: "vacuity twin"})
 			return js
 		},
 	}
